@@ -52,6 +52,15 @@ def rwlock(R, prog):
                        require=lambda st, ev: 'S:state_write' not in st,
                        key_fn=lambda ev: P + '.K7:photon::rwlock::lock:failure-leaves-state',
                        describe=lambda ev: 'failing return has not written the state', min_sites=2, what='return -1')
+            # a waiter that was notified has consumed the single wake-up unlock() issues: it may only go on to re-test, never fail
+            waits = K.locals_assigned_from_call(G.root, r'^photon::condition_variable::wait$')
+            waited = lambda ev: ev.kind == 'call' and ev.callee() == 'photon::condition_variable::wait'
+            res_w = an.run(G, [an.GuardTracker(lambda k: True), an.SeenTracker([('waited', waited)])])
+            K.check_at(R, P + '.K6', G, res_w, lambda ev: (ev.kind == 'return' and ev.depth == 0 and ev.f.const(ev.e['sub']) not in (0, None)),
+                       require=lambda st, ev: 'S:waited' not in st or any(('G:%s < 0=T' % w) in st for w in waits) or
+                       any(re.match(r'^G:\[?this->cvar\.wait\(.*\)\]? < 0=T$', x) for x in st),
+                       key_fn=lambda ev: P + '.K6:photon::rwlock::lock:failure-only-on-failed-wait',
+                       describe=lambda ev: 'after waiting, lock() fails only if the wait itself failed (a notified waiter holds the wake-up and must proceed)', min_sites=1, what='return -1')
             K.check_at(R, P + '.K4', G, res, lambda ev: ev.kind == 'exit',
                        require=lambda st, ev: 'S:mark_set' not in st,
                        key_fn=lambda ev: P + '.K4:photon::rwlock::lock:mark-restored',
